@@ -232,15 +232,29 @@ Definition obs_eqb (a b : obs) : bool :=
   | _, _ => false
   end.
 
+(* calls issued concurrently (a group) against an underlying sink whose Open/Close yield: the lock serialises
+   them in arrival order, so the underlying calls of a group happen in the order of the sequential run
+   (requests do not take the lock and are left out of this comparison) *)
+Fixpoint group {A} (sizes : list nat) (l : list (list A)) : list (list A) :=
+  match sizes with
+  | [] => []
+  | n :: r => concat (firstn n l) :: group r (skipn n l)
+  end.
+Definition not_fwd (o : robs) : bool := match o with UForward _ => false | _ => true end.
+
 Inductive case :=
 | CSingle (ops : list label) (expected : list (list obs * Z))
 | CRef (ops : list rlabel) (expected : list (list robs))
+| CRefG (ops : list rlabel) (expected : list (list robs)) (sizes : list nat) (chrono : list (list robs))
 | CShared (ops : list shlabel) (expected : list (list shobs)).
 
 Definition check_case (c : case) : bool :=
   match c with
   | CSingle ops e => list_eqb (pair_eqb (list_eqb obs_eqb) Z.eqb) (run_view init ops) e
   | CRef ops e => rcheck ops e
+  | CRefG ops e sizes chrono =>
+      rcheck ops e &&
+      list_eqb (list_eqb robs_eqb) (map (filter not_fwd) (group sizes (snd (rrun rinit ops)))) chrono
   | CShared ops e => shcheck ops e
   end.
 
@@ -254,5 +268,6 @@ Definition explain_case (c : case) : explained :=
   match c with
   | CSingle ops _ => XSingle (run_view init ops)
   | CRef ops _ => XRef (snd (rrun rinit ops))
+  | CRefG ops _ _ _ => XRef (snd (rrun rinit ops))
   | CShared ops _ => XShared (snd (shrun shinit ops))
   end.
